@@ -101,6 +101,33 @@ func TestLossySubscribersSideBySide(t *testing.T) {
 		c := resource.NewCollection(opts...)
 		ctx, cancel := context.WithCancel(context.Background())
 		defer cancel()
+		// a neighbour that keeps receiving: a backpressured filtered view (odd values only) subscribed first. Most writes move
+		// an item in or out of its view; what the collection makes of a change for this subscriber is its own business and
+		// must not show in what the lossy subscribers are given.
+		var neighbour chan map[string]int32
+		if rapid.Bool().Draw(t, "filteredNeighbour") {
+			neighbour = make(chan map[string]int32, 1)
+			nch := c.Pull(ctx, resource.WithBackpressure(true), resource.WithInclude(func(_ string, m proto.Message) bool {
+				return m != nil && m.(*testproto.ForeignMessage).C%2 != 0
+			}))
+			go func() {
+				view := map[string]int32{}
+				for e := range nch {
+					if e.NewValue != nil {
+						view[e.Id] = e.NewValue.(*testproto.ForeignMessage).C
+					} else {
+						delete(view, e.Id)
+					}
+					if v, ok := view["zz"]; ok && v == -1 {
+						neighbour <- view
+						for range nch {
+						}
+						return
+					}
+				}
+			}()
+			lib.Ev.Class("api:lossy subscribers next to a backpressured filtered view")
+		}
 		nsubs := rapid.IntRange(2, 3).Draw(t, "subscribers")
 		subs := make([]*lossySub, nsubs)
 		for i := range subs {
@@ -198,9 +225,26 @@ func TestLossySubscribersSideBySide(t *testing.T) {
 				}
 			}
 		}
+		if neighbour != nil {
+			select {
+			case view := <-neighbour:
+				for id, v := range store {
+					if w, ok := view[id]; v%2 != 0 && (!ok || w != v) || v%2 == 0 && ok {
+						t.Fatalf("the filtered (odd values) backpressured neighbour folded %v, the store has %v\nhistory: %s", view, store, strings.Join(hist, " "))
+					}
+				}
+				for id := range view {
+					if _, ok := store[id]; !ok {
+						t.Fatalf("the filtered neighbour still holds %q which the store removed: %v\nhistory: %s", id, view, strings.Join(hist, " "))
+					}
+				}
+			case <-time.After(guard):
+				t.Fatalf("the filtered backpressured neighbour never received the sentinel\nhistory: %s", strings.Join(hist, " "))
+			}
+		}
 		nt := ""
 		if maxLagDiff >= 2 {
-			nt = fmt.Sprintf("%d|%s", nsubs, strings.Join(hist, " "))
+			nt = fmt.Sprintf("%d|%v|%s", nsubs, neighbour != nil, strings.Join(hist, " "))
 		}
 		lib.Ev.Class("api:lossy subscribers side by side")
 		lib.Ev.Case(nt, func() any {
